@@ -2329,6 +2329,17 @@ fn fc_realtime3() -> FixedCapacityPoolConfig {
 fn fc_secure3_lazy() -> FixedCapacityPoolConfig {
     FixedCapacityPoolConfig { total_blocks: 3, eager_allocation: false, ..FixedCapacityPoolConfig::secure() }
 }
+// lazy backing memory (allocated by the first allocate(), a copy of the eager set-up code) with an alignment above what
+// malloc gives anyway: the configured alignment must hold on this path too
+fn fc_realtime3_lazy() -> FixedCapacityPoolConfig {
+    FixedCapacityPoolConfig { total_blocks: 3, eager_allocation: false, ..FixedCapacityPoolConfig::realtime() }
+}
+fn fc_page3_lazy() -> FixedCapacityPoolConfig {
+    FixedCapacityPoolConfig { total_blocks: 3, max_block_size: 4096, alignment: 4096, eager_allocation: false, ..FixedCapacityPoolConfig::default() }
+}
+fn fc_page3() -> FixedCapacityPoolConfig {
+    FixedCapacityPoolConfig { total_blocks: 3, max_block_size: 4096, alignment: 4096, ..FixedCapacityPoolConfig::default() }
+}
 fn fc_default1() -> FixedCapacityPoolConfig {
     FixedCapacityPoolConfig { total_blocks: 1, ..FixedCapacityPoolConfig::default() }
 }
@@ -2441,6 +2452,9 @@ fn main() {
         reg.add(fixedcap("FixedCapacityMemoryPool[medium_objects,2 blocks]", fc_medium2, &[1, 16, 17, 65536, 65537], 4, 5));
         reg.add(fixedcap("FixedCapacityMemoryPool[realtime,3 blocks]", fc_realtime3, &[64, 127, 8192, 8193], 5, 6));
         reg.add(fixedcap("FixedCapacityMemoryPool[secure,3 blocks,lazy]", fc_secure3_lazy, &[8, 127, 192, 4096], 5, 6));
+        reg.add(fixedcap("FixedCapacityMemoryPool[realtime,3 blocks,lazy]", fc_realtime3_lazy, &[64, 127, 8192, 8193], 4, 5));
+        reg.add(fixedcap("FixedCapacityMemoryPool[align=4096,3 blocks,lazy]", fc_page3_lazy, &[1, 4096, 4097], 4, 5));
+        reg.add(fixedcap("FixedCapacityMemoryPool[align=4096,3 blocks]", fc_page3, &[1, 4096, 4097], 4, 5));
         reg.add(fixedcap("FixedCapacityMemoryPool[default,1 block]", fc_default1, &[1, 4096, 4097], 4, 5));
         reg.add(fixedcap("FixedCapacityMemoryPool[max_block=16,3 blocks]", fc_min16, &[1, 8, 9, 16, 17], 5, 6));
 
